@@ -165,12 +165,20 @@ class AsUnknown(Elemwise):
 
 class Categorize(Blockwise):
     _parameters = ["frame", "categories", "index"]
-    operation = staticmethod(_categorize_block)
     _projection_passthrough = True
+
+    @staticmethod
+    def operation(df, categories, index):
+        # A column selection may have been pushed below
+        if df.ndim == 1:
+            categories = {k: v for k, v in categories.items() if k == df.name}
+            return _categorize_block(df.to_frame(), categories, index)[df.name]
+        categories = {k: v for k, v in categories.items() if k in df.columns}
+        return _categorize_block(df, categories, index)
 
     @functools.cached_property
     def _meta(self):
-        meta = _categorize_block(
+        meta = self.operation(
             self.frame._meta, self.operand("categories"), self.operand("index")
         )
         return meta
